@@ -441,7 +441,7 @@ func Check[P any](t *testing.T, gen func(*rapid.T) P, run func(P) Result) {
 		}
 		reps := EnvInt("VF_REPLAY_REPS", 1)
 		for i := 0; i < reps; i++ {
-			r := run(p)
+			r := runGuarded(run, p)
 			Record(test, p, r)
 			if r.Err != nil {
 				path := WriteReplay(test, p, r)
@@ -459,7 +459,7 @@ func Check[P any](t *testing.T, gen func(*rapid.T) P, run func(P) Result) {
 		p := gen(rt)
 		Journal(test, p)
 		stop := watchdog(test, p)
-		r := run(p)
+		r := runGuarded(run, p)
 		stop()
 		Record(test, p, r)
 		if r.Err != nil {
@@ -467,6 +467,47 @@ func Check[P any](t *testing.T, gen func(*rapid.T) P, run func(P) Result) {
 			rt.Fatalf("VF-FAIL replay=%s: %v", path, r.Err)
 		}
 	})
+}
+
+// runGuarded runs one case. A bubble that cannot end because goroutines inside it are blocked for ever (synctest
+// panics with "deadlock: ...") is a finding about the node under test, not a crash of the harness: it is turned into a
+// failed case that lists the blocked goroutines. Any other panic on the test goroutine is passed on.
+func runGuarded[P any](run func(P) Result, p P) (res Result) {
+	defer func() {
+		r := recover()
+		if r == nil {
+			return
+		}
+		msg := fmt.Sprint(r)
+		if !strings.Contains(msg, "deadlock:") || (!strings.Contains(msg, "blocked goroutines remain") && !strings.Contains(msg, "goroutines in bubble are blocked")) {
+			panic(r)
+		}
+		buf := make([]byte, 8<<20)
+		buf = buf[:runtime.Stack(buf, true)]
+		var keep []string
+		for _, g := range strings.Split(string(buf), "\n\n") {
+			head, _, _ := strings.Cut(g, "\n")
+			if !strings.Contains(head, "synctest bubble") || strings.Contains(head, "[running]") {
+				continue
+			}
+			var fr []string
+			for _, l := range strings.Split(g, "\n") {
+				if strings.HasPrefix(l, "\t") || strings.Contains(l, "go-msgpack") {
+					continue
+				}
+				if i := strings.LastIndex(l, "("); i > 0 && !strings.HasPrefix(l, "goroutine") && !strings.HasPrefix(l, "created by") {
+					l = l[:i]
+				}
+				fr = append(fr, l)
+			}
+			keep = append(keep, trimStackN(strings.Join(fr, "\n"), 24))
+			if len(keep) >= 12 {
+				break
+			}
+		}
+		res = Result{Err: fmt.Errorf("the case could not end: %s\nblocked for ever inside the bubble (%d shown):\n%s", msg, len(keep), strings.Join(keep, "\n\n"))}
+	}()
+	return run(p)
 }
 
 // watchdog guards one case against a frozen bubble. Virtual time cannot advance while a goroutine of the bubble waits
